@@ -23,7 +23,7 @@ ADDENDA = {
     "C11": " Also: Direct under every interleaving of Send/Recv/Close, independence of the reader window, chunked-reader models for the split and header framings (recv over any chunking = recv over the concatenation), RawJSON literals.",
     "C12": " Also: explicit Content-Length rejection, remaining stream is a suffix for every outcome, RawJSON error stickiness and truncation kind, per-call (every n) no-crash theorems, RawJSON records are valid per the independent JSON grammar.",
     "C13": " Also: compaction preserves the JSON value, null ids/params, bridge replies, every record the transition models emit is a message at byte level. Nothing partial: parse-of-print of the JSON model proved for all inputs, batch form, error-object fallback of fix a8edc0b (encoder total).",
-    "C14": " Also: the two JSON models (Errs scanner, Json tree) are proved equal, data arrive equal as JSON values, Batch and callback directions, nesting side condition. After fix a8edc0b a reply is never lost (undeliverable error data are dropped), batch members independent; old behaviour behind switch fix16 with refutation witnesses.",
+    "C14": " Also: the two JSON models (Errs scanner, Json tree) are proved equal, data arrive equal as JSON values, Batch and callback directions, nesting side condition. After fix a8edc0b a reply is never lost (undeliverable error data are dropped), batch members independent; old behaviour behind switch fix16 with refutation witnesses. The check also runs the callback direction (an *Error from a client's OnCallback handler reaches Server.Callback's caller: family cli:c09 against the client model) and the HTTP transport (family hc:bridge: handler errors over jhttp.Channel + Bridge equal those over a direct connection).",
     "C15": " Also: check_info, handle-once (calls <= 1, result and error unchanged), non-interference of concurrent calls with per-call scratch state.",
     "C16": " Also: null elements, iff form of acceptance, Args marshalling elementwise, Obj leaves absent targets untouched also on failure.",
     "C17": " Also: serverInfo method list, Names duplicate-free, the gate of the dispatch model linked to SrvModel.assign_method on every reachable state, context record (assigner and handler see the dispatched request; only the handler sees the server).",
